@@ -40,10 +40,37 @@ type c17Decoder struct {
 	stored   *ast.CallExpr // binary.<order>.Uint16(d[..])
 	computed *ast.CallExpr // checksum(d[..])
 	sumFn    types.Object
+	// where stored/computed live: the decoder itself, or a boolean validator
+	// helper V(d) that the decoder calls with its whole packet
+	vf            *kit.Func
+	vd            types.Object
+	vEq           bool // the validator returns stored == computed (false: !=)
+	storedSlice   *ast.SliceExpr
+	computedSlice *ast.SliceExpr
+}
+
+func (d *c17Decoder) viaHelper() bool { return d.vf != d.f }
+
+// c17ResolvedSliceOf: e is a slice expression of x, or a single-definition
+// local holding one.
+func c17ResolvedSliceOf(f *kit.Func, e ast.Expr, x types.Object) *ast.SliceExpr {
+	info := f.Info()
+	if se := c17SliceOf(info, e, x); se != nil {
+		return se
+	}
+	if id, ok := ast.Unparen(e).(*ast.Ident); ok {
+		if o := kit.ObjOf(info, id); o != nil && o != x {
+			if def := c12SingleDef(f, o); def != nil {
+				return c17SliceOf(info, def, x)
+			}
+		}
+	}
+	return nil
 }
 
 type c17Encoder struct {
 	f     *kit.Func
+	slice bool // the packet is built in a []byte (make/copy/append), not a bytes.Buffer
 	buf   types.Object
 	sum   *ast.CallExpr
 	sumFn types.Object
@@ -78,7 +105,7 @@ func c17InBinaryPkg(o types.Object) bool {
 // c17FindDecoders: functions with a []byte parameter d that compute a 16-bit
 // checksum of a sub-slice of d and read a 16-bit word from a sub-slice of d.
 func c17FindDecoders(c *kit.Ctx, rel string) []*c17Decoder {
-	var out []*c17Decoder
+	var cands []*c17Decoder
 	for _, f := range c.P.Funcs(rel) {
 		if f.Body == nil || f.Decl == nil {
 			continue
@@ -88,24 +115,111 @@ func c17FindDecoders(c *kit.Ctx, rel string) []*c17Decoder {
 			if !c17IsByteSlice(p.Type()) {
 				continue
 			}
-			dec := &c17Decoder{f: f, d: p}
+			dec := &c17Decoder{f: f, d: p, vf: f, vd: p}
 			for _, call := range f.AllCalls(false) {
-				if len(call.Args) != 1 || c17SliceOf(info, call.Args[0], p) == nil || !c17IsUint16(info.TypeOf(call)) {
+				if len(call.Args) != 1 || !c17IsUint16(info.TypeOf(call)) {
+					continue
+				}
+				se := c17ResolvedSliceOf(f, call.Args[0], p)
+				if se == nil {
 					continue
 				}
 				callee := kit.Callee(info, call)
 				if fn, ok := callee.(*types.Func); ok && c17InBinaryPkg(fn) && fn.Name() == "Uint16" {
-					dec.stored = call
+					dec.stored, dec.storedSlice = call, se
 				} else if fn, ok := callee.(*types.Func); ok && !c17InBinaryPkg(fn) {
-					dec.computed, dec.sumFn = call, fn
+					dec.computed, dec.sumFn, dec.computedSlice = call, fn, se
 				}
 			}
 			if dec.stored != nil && dec.computed != nil {
-				out = append(out, dec)
+				cands = append(cands, dec)
+			}
+		}
+	}
+	// a candidate that only answers "stored == computed" is a validator: the
+	// decoders are its callers that pass their whole packet
+	var out []*c17Decoder
+	for _, v := range cands {
+		eq, isValidator := c17ValidatorShape(v)
+		if !isValidator {
+			out = append(out, v)
+			continue
+		}
+		for _, f := range c.P.Funcs(rel) {
+			if f.Body == nil || f.Decl == nil || f == v.f {
+				continue
+			}
+			for _, call := range f.AllCalls(false) {
+				if f.CalleeFunc(call) != v.f || len(call.Args) != 1 {
+					continue
+				}
+				for _, p := range f.Params() {
+					if id, ok := ast.Unparen(call.Args[0]).(*ast.Ident); ok && kit.ObjOf(f.Info(), id) == p && c17IsByteSlice(p.Type()) {
+						dup := false
+						for _, o := range out {
+							if o.f == f {
+								dup = true
+							}
+						}
+						if !dup {
+							d := *v
+							d.f, d.d, d.vEq = f, p, eq
+							out = append(out, &d)
+						}
+					}
+				}
 			}
 		}
 	}
 	return out
+}
+
+// c17ValidatorShape: the function has a single bool result and exactly one
+// return, `stored == computed` or `stored != computed` (directly or through
+// single-definition locals).
+func c17ValidatorShape(v *c17Decoder) (eq, ok bool) {
+	f := v.f
+	info := f.Info()
+	sig := f.Signature()
+	if sig == nil || sig.Results().Len() != 1 || len(f.Params()) != 1 {
+		return false, false
+	}
+	if b, isB := sig.Results().At(0).Type().Underlying().(*types.Basic); !isB || b.Kind() != types.Bool {
+		return false, false
+	}
+	var rets []*ast.ReturnStmt
+	ast.Inspect(f.Body, func(x ast.Node) bool {
+		switch y := x.(type) {
+		case *ast.FuncLit:
+			return false
+		case *ast.ReturnStmt:
+			rets = append(rets, y)
+		}
+		return true
+	})
+	if len(rets) != 1 || len(rets[0].Results) != 1 {
+		return false, false
+	}
+	resolve := func(e ast.Expr) ast.Expr {
+		e = ast.Unparen(e)
+		if id, isId := e.(*ast.Ident); isId {
+			if o := kit.ObjOf(info, id); o != nil {
+				if def := c12SingleDef(f, o); def != nil {
+					return ast.Unparen(def)
+				}
+			}
+		}
+		return e
+	}
+	a, b, op, isCmp := kit.CmpAtom(rets[0].Results[0])
+	if !isCmp || (op != token.EQL && op != token.NEQ) {
+		return false, false
+	}
+	ra, rb := resolve(a), resolve(b)
+	if (ra == ast.Expr(v.stored) && rb == ast.Expr(v.computed)) || (rb == ast.Expr(v.stored) && ra == ast.Expr(v.computed)) {
+		return op == token.EQL, true
+	}
+	return false, false
 }
 
 // c17FindEncoders: functions that apply sumFn to the bytes of a local
@@ -119,6 +233,13 @@ func c17FindEncoders(c *kit.Ctx, rel string, sumFn types.Object) []*c17Encoder {
 		info := f.Info()
 		for _, call := range f.AllCalls(false) {
 			if kit.Callee(info, call) != sumFn || len(call.Args) != 1 {
+				continue
+			}
+			// a local []byte created by make and grown by append
+			if id, isId := ast.Unparen(call.Args[0]).(*ast.Ident); isId {
+				if o := kit.ObjOf(info, id); o != nil && c17IsByteSlice(o.Type()) && c17MadeLocally(f, o) {
+					out = append(out, &c17Encoder{f: f, slice: true, buf: o, sum: call, sumFn: sumFn})
+				}
 				continue
 			}
 			inner, ok := ast.Unparen(call.Args[0]).(*ast.CallExpr)
@@ -139,7 +260,7 @@ func c17FindEncoders(c *kit.Ctx, rel string, sumFn types.Object) []*c17Encoder {
 func runC17(c *kit.Ctx) {
 	r1 := c.Rule("R1", "encoder and decoder agree on the packet layout", 10)
 	r2 := c.Rule("R2", "checksum acceptance table", 4)
-	r3 := c.Rule("R3", "decoder indices are implied by length guards", 8)
+	r3 := c.Rule("R3", "decoder indices are implied by length guards", 5)
 	r4 := c.Rule("R4", "serial point codec field completeness", 8)
 
 	decs := c17FindDecoders(c, "client")
@@ -155,7 +276,12 @@ func runC17(c *kit.Ctx) {
 	c.Analysed(dec.f, enc.f)
 
 	dm := c17AnalyseDecoder(c, dec)
-	em := c17AnalyseEncoder(c, enc)
+	var em *c17EncModel
+	if enc.slice {
+		em = c17AnalyseSliceEncoder(c, enc)
+	} else {
+		em = c17AnalyseEncoder(c, enc)
+	}
 
 	c17Layout(c, r1, enc, em, dec, dm)
 	c17Storage(c, r1, enc, em)
@@ -163,17 +289,24 @@ func runC17(c *kit.Ctx) {
 	c17Acceptance(c, r2, dec, dm, em)
 
 	// R3
-	keys := c12SiteKeys(dec.f, "packet bytes", dm.lf.Sites)
-	for _, st := range dm.lf.Sites {
-		o := r3.Ob(dec.f, st.Expr, keys[st], "the index is within the packet length on every path that reaches it")
-		switch st.Verdict {
-		case "ok":
-			o.OK("%s: %s", dec.f.Str(st.Expr), st.By)
-		case "violation":
-			o.Violation("%s", st.Msg)
-		default:
-			o.Undecided("%s", st.Msg)
+	r3sites := func(f *kit.Func, role string, sites []*kit.LenSite) {
+		keys := c12SiteKeys(f, role, sites)
+		for _, st := range sites {
+			o := r3.Ob(f, st.Expr, keys[st], "the index is within the packet length on every path that reaches it")
+			switch st.Verdict {
+			case "ok":
+				o.OK("%s: %s", f.Str(st.Expr), st.By)
+			case "violation":
+				o.Violation("%s", st.Msg)
+			default:
+				o.Undecided("%s", st.Msg)
+			}
 		}
+	}
+	r3sites(dec.f, "packet bytes", dm.lf.Sites)
+	if dm.hlf != nil {
+		c.Analysed(dec.vf)
+		r3sites(dec.vf, "packet bytes (checksum helper, lengths that reach its call)", dm.hlf.Sites)
 	}
 
 	// R4: codec pairs of the message types carried in the packet payload
@@ -212,6 +345,7 @@ func runC17(c *kit.Ctx) {
 
 type c17DecModel struct {
 	lf        *kit.LenFlow
+	hlf       *kit.LenFlow // the validator helper analysed with the packet lengths that reach its call
 	subjVar   types.Object
 	subjSlice *ast.SliceExpr
 	payVar    types.Object
@@ -284,7 +418,19 @@ func c17AnalyseDecoder(c *kit.Ctx, dec *c17Decoder) *c17DecModel {
 		return []kit.S{s.Set(k, yes)}, []kit.S{s.Set(k, no)}
 	}
 	lf := &kit.LenFlow{F: f, X: dec.d}
+	callDom := ""
 	lf.Leaf = func(e ast.Expr, s kit.S) (t, fl []kit.S, handled bool) {
+		if dec.viaHelper() {
+			if call, ok := ast.Unparen(e).(*ast.CallExpr); ok && f.CalleeFunc(call) == dec.vf && len(call.Args) == 1 {
+				if id, ok := ast.Unparen(call.Args[0]).(*ast.Ident); ok && kit.ObjOf(info, id) == dec.d {
+					if set, _, _, _, ok := lf.ResultLen(id, s); ok {
+						callDom = kit.LenDomUnion(callDom, set)
+					}
+					t, fl = setAtom(s, "crc", dec.vEq)
+					return t, fl, true
+				}
+			}
+		}
 		a, b, op, ok := kit.CmpAtom(e)
 		if !ok || (op != token.EQL && op != token.NEQ) {
 			return nil, nil, false
@@ -303,7 +449,24 @@ func c17AnalyseDecoder(c *kit.Ctx, dec *c17Decoder) *c17DecModel {
 	}
 	lf.Run()
 	dm.lf = lf
+	if dec.viaHelper() {
+		h := &kit.LenFlow{F: dec.vf, X: dec.vd, DefDom: callDom}
+		if callDom == "" {
+			h.Init = kit.NewS().Set("u", "1") // the call was never reached with a known length
+		}
+		h.Run()
+		dm.hlf = h
+	}
 	return dm
+}
+
+// sites of both flows
+func (dm *c17DecModel) allSites() []*kit.LenSite {
+	out := append([]*kit.LenSite(nil), dm.lf.Sites...)
+	if dm.hlf != nil {
+		out = append(out, dm.hlf.Sites...)
+	}
+	return out
 }
 
 // ===========================================================================
@@ -615,7 +778,6 @@ func c17AnalyseEncoder(c *kit.Ctx, enc *c17Encoder) *c17EncModel {
 func c17Layout(c *kit.Ctx, r *kit.Rule, enc *c17Encoder, em *c17EncModel, dec *c17Decoder, dm *c17DecModel) {
 	ef, df := enc.f, dec.f
 	info := df.Info()
-	lf := dm.lf
 	find := func(role string) (int, *c17Seg) {
 		for i := range em.segs {
 			if em.segs[i].role == role {
@@ -703,7 +865,7 @@ func c17Layout(c *kit.Ctx, r *kit.Rule, enc *c17Encoder, em *c17EncModel, dec *c
 	}
 	boundsOf := func(se ast.Expr, filter func(kit.S) bool) (los, his []string) {
 		lo, hi := map[string]bool{}, map[string]bool{}
-		for _, st := range lf.Sites {
+		for _, st := range dm.allSites() {
 			if st.Expr != se {
 				continue
 			}
@@ -876,7 +1038,7 @@ func c17Layout(c *kit.Ctx, r *kit.Rule, enc *c17Encoder, em *c17EncModel, dec *c
 	// checksum trailer
 	oCrc := r.Ob(df, dec.stored, "checksum trailer position and byte order", fmt.Sprintf("the stored checksum is read from the last %d bytes in the byte order the encoder wrote", crcSize))
 	{
-		se := c17SliceOf(info, dec.stored.Args[0], dec.d)
+		se := dec.storedSlice
 		lo, hi := boundsOf(se, nil)
 		recv := ""
 		if sel, ok := ast.Unparen(dec.stored.Fun).(*ast.SelectorExpr); ok {
@@ -899,7 +1061,7 @@ func c17Layout(c *kit.Ctx, r *kit.Rule, enc *c17Encoder, em *c17EncModel, dec *c
 	}
 	oCov := r.Ob(df, dec.computed, "checksum coverage", "the decoder checksums exactly the bytes the encoder checksummed: everything before the trailer")
 	{
-		se := c17SliceOf(info, dec.computed.Args[0], dec.d)
+		se := dec.computedSlice
 		lo, hi := boundsOf(se, nil)
 		switch {
 		case len(lo) == 0:
@@ -1055,6 +1217,41 @@ func c17Storage(c *kit.Ctx, r *kit.Rule, enc *c17Encoder, em *c17EncModel) {
 	f := enc.f
 	info := f.Info()
 	o := r.Ob(f, nil, "returned packet storage", "the returned packet does not alias a buffer that outlives the call in other hands (a pooled or package-level buffer)")
+	if enc.slice {
+		// the packet slice is allocated by make inside the call (that is how the encoder was recognised)
+		bad := ""
+		ast.Inspect(f.Body, func(x ast.Node) bool {
+			switch y := x.(type) {
+			case *ast.FuncLit:
+				return false
+			case *ast.ReturnStmt:
+				if len(y.Results) == 0 {
+					bad = "naked return"
+					return true
+				}
+				e := ast.Unparen(y.Results[0])
+				if se, ok := e.(*ast.SliceExpr); ok {
+					e = ast.Unparen(se.X)
+				}
+				switch z := e.(type) {
+				case *ast.Ident:
+					if ob := kit.ObjOf(info, z); ob == enc.buf || kit.IsNilIdent(info, z) {
+						return true
+					}
+				case *ast.CompositeLit:
+					return true
+				}
+				bad = fmt.Sprintf("`%s` (%s)", f.Str(y), f.At(y))
+			}
+			return true
+		})
+		if bad != "" {
+			o.Undecided("the storage of the returned slice is not understood at %s", bad)
+		} else {
+			o.OK("the packet is a slice allocated by make inside the call")
+		}
+		return
+	}
 	var classify func(e ast.Expr, depth int) string
 	mentionsBuf := func(e ast.Expr) bool {
 		hit := false
